@@ -144,7 +144,9 @@ Lemma skip_spec (F : file) : forall post pre m s fuel,
   split_at F pre m post -> on_member (v_cur s) m -> v_err s = eNil -> (length post < fuel)%nat ->
   exists s' e, v_skip F fuel s = Ok (s', e) /\ same_misc s s' /\
     ((e = eNil /\ v_err s' = eNil /\ exists pre' m' post', split_at F pre' m' post' /\ on_member (v_cur s') m' /\
-        b_pos (v_cur s') < m_len m' /\ total pre' + b_pos (v_cur s') = total pre + b_pos (v_cur s))
+        b_pos (v_cur s') < m_len m' /\ total pre' + b_pos (v_cur s') = total pre + b_pos (v_cur s) /\
+        (m_base m <= m_base m' /\ (b_pos (v_cur s) < m_len m -> s' = s) /\
+         (b_pos (v_cur s) = m_len m -> m_base m < m_base m' /\ b_pos (v_cur s') = 0 /\ fst (v_lc s') = fst (v_lc s))))
      \/ (e = eEOF /\ at_eof F s' /\ total pre + b_pos (v_cur s) = total F)).
 Proof.
   induction post as [|m' post IH]; intros pre m s fuel S On He Hf.
@@ -156,7 +158,8 @@ Proof.
       split; [reflexivity|]. split; [split; reflexivity|].
       destruct S as [-> _]. rewrite total_app, total_cons, total_nil. lia.
     + eexists _, _. split; [reflexivity|]. split; [split; reflexivity|]. left.
-      split; [reflexivity|]. split; [assumption|]. exists pre, m, []. split; [exact S|]. split; [exact On|]. lia.
+      split; [reflexivity|]. split; [assumption|]. exists pre, m, []. split; [exact S|]. split; [exact On|].
+      rewrite HL in E0. split; [lia|]. split; [lia|]. split; [lia|]. split; [reflexivity|]. lia.
   - destruct fuel as [|fuel]; [simpl in Hf; lia|].
     pose proof (on_member_len On) as HL.
     simpl. destruct (Z.eqb_spec (b_len (v_cur s)) 0) as [E0|E0].
@@ -168,13 +171,20 @@ Proof.
       * simpl in Hf. lia.
       * exists s', e. split; [exact Hr|]. split; [exact Hm|].
         simpl in Hcase. rewrite total_app, total_cons, total_nil in Hcase.
-        destruct Hcase as [(H1 & H2 & pre' & m'' & post' & H3 & H4 & H5 & H6)|(H1 & H2 & H3)].
-        -- left. split; [assumption|]. split; [assumption|]. exists pre', m'', post'. split; [exact H3|]. split; [exact H4|]. split; [exact H5|]. lia.
+        destruct Hcase as [(H1 & H2 & pre' & m'' & post' & H3 & H4 & H5 & H6 & H7 & H8 & H9)|(H1 & H2 & H3)].
+        -- left. split; [assumption|]. split; [assumption|]. exists pre', m'', post'. split; [exact H3|]. split; [exact H4|]. split; [exact H5|].
+           pose proof (split_next_base S) as Hnb. pose proof (split_size_pos S) as Hsp.
+           rewrite HL in E0. split; [lia|]. split; [lia|]. split; [lia|]. intros _. split; [lia|].
+           destruct (Z.eq_dec (m_len m') 0) as [Hz|Hz].
+           ++ destruct (H9 ltac:(simpl; lia)) as (_ & Hp0 & Hlc0). split; [exact Hp0|exact Hlc0].
+           ++ assert (Hs' : s' = set_cur s (blk_of m' 0 (b_used (v_cur s)))) by (apply H8; simpl; pose proof (m_len_nonneg m'); lia).
+              rewrite Hs'. split; reflexivity.
         -- right. split; [assumption|]. split; [assumption|]. lia.
     + eexists _, _. split; [reflexivity|]. split; [split; reflexivity|]. left.
       split; [reflexivity|]. split; [assumption|]. exists pre, m, (m' :: post).
       pose proof On as (Hb & Hs & Hd & Hh & Hp & Ho).
-      split; [exact S|]. split; [exact On|]. lia.
+      split; [exact S|]. split; [exact On|].
+      rewrite HL in E0. split; [lia|]. split; [lia|]. split; [lia|]. split; [reflexivity|]. lia.
 Qed.
 
 (** ---- the copy loop *)
@@ -185,10 +195,10 @@ Definition copy_post (F : file) (s s' : vstate) (q : Z) (short : bool) : Prop :=
 
 Lemma copy_done (F : file) (n : Z) (s : vstate) (fuel : nat) (acc : list Z) (pre : file) (m : member) (post : file) :
   split_at F pre m post -> on_member (v_cur s) m -> zlen acc = n ->
-  exists s', v_copy F fuel s n acc = Ok (s', acc, eNil) /\ copy_post F s s' (total pre + b_pos (v_cur s)) false.
+  exists s', v_copy F fuel s n acc = Ok (s', acc, eNil) /\ copy_post F s s' (total pre + b_pos (v_cur s)) false /\ v_cur s' = v_cur s.
 Proof.
   intros S On E. exists (set_end (set_err s eNil) (b_tx (v_cur s))).
-  split.
+  split; [|split; [|reflexivity]].
   - destruct fuel; simpl; destruct (Z.ltb_spec (zlen acc) n); try lia; reflexivity.
   - unfold copy_post. simpl. repeat split. exists pre, m, post. auto.
 Qed.
@@ -221,7 +231,7 @@ Proof.
   - (* last member *)
     assert (Hk : k = 0) by (unfold k, flat_data; simpl; rewrite zlen_nil; lia).
     destruct (Z.eq_dec r 0) as [Hr0|Hr0].
-    + destruct (copy_done F n s fuel acc pre m [] S On ltac:(lia)) as (s' & Hc & Hp).
+    + destruct (copy_done F n s fuel acc pre m [] S On ltac:(lia)) as (s' & Hc & Hp & _).
       exists s'. rewrite Hk. rewrite ztake_0, app_nil_r.
       replace (0 <? r) with false by (symmetry; apply Z.ltb_ge; lia).
       split; [exact Hc|]. rewrite Hal in Hp. replace (total pre + m_len m + 0) with (total pre + m_len m) by lia. exact Hp.
@@ -239,7 +249,7 @@ Proof.
       destruct S as [-> _]. rewrite total_app, total_cons, total_nil. lia.
   - unfold k; clear k. rewrite flat_data_cons. set (k := Z.min r (zlen (m_data m' ++ flat_data post))).
     destruct (Z.eq_dec r 0) as [Hr0|Hr0].
-    + destruct (copy_done F n s fuel acc pre m (m' :: post) S On ltac:(lia)) as (s' & Hc & Hp).
+    + destruct (copy_done F n s fuel acc pre m (m' :: post) S On ltac:(lia)) as (s' & Hc & Hp & Hcur).
       exists s'. assert (Hk : k = 0) by (unfold k; pose proof (zlen_nonneg (m_data m' ++ flat_data post)); lia).
       rewrite Hk, ztake_0, app_nil_r.
       replace (0 <? r) with false by (symmetry; apply Z.ltb_ge; lia).
@@ -279,7 +289,7 @@ Proof.
         destruct (Z.eq_dec k1 r) as [Hfull|Hpart].
         -- (* the request is satisfied inside m' *)
            destruct (copy_done F n s3 fuel (acc ++ ztake k1 (m_data m')) (pre ++ [m]) m' post S2 On3
-                       ltac:(rewrite zlen_app, Hz1; unfold r in Hfull; lia)) as (s' & Hc & Hp).
+                       ltac:(rewrite zlen_app, Hz1; unfold r in Hfull; lia)) as (s' & Hc & Hp & Hcur).
            exists s'. 
            assert (Hk : k = r) by (unfold k; rewrite zlen_app; pose proof (zlen_nonneg (flat_data post)); unfold k1, m_len in *; lia).
            rewrite Hk. replace (r <? r) with false by (symmetry; apply Z.ltb_ge; lia).
@@ -338,7 +348,7 @@ Proof.
     { unfold rest. rewrite zdrop_all by (unfold m_len in *; lia). reflexivity. }
     exists s'. unfold k. rewrite Hr. split; [exact Hc|]. rewrite Hal. exact Hpost.
   - destruct (Z.eq_dec n 0) as [Hn0|Hn0].
-    + destruct (copy_done F n s fuel [] pre m post S On ltac:(rewrite zlen_nil; lia)) as (s' & Hc & Hpost).
+    + destruct (copy_done F n s fuel [] pre m post S On ltac:(rewrite zlen_nil; lia)) as (s' & Hc & Hpost & Hcur).
       exists s'. assert (Hk : k = 0) by (unfold k; lia). rewrite Hk, ztake_0.
       replace (0 <? n) with false by (symmetry; apply Z.ltb_ge; lia).
       split; [exact Hc|]. fold p in Hpost. replace (total pre + p + 0) with (total pre + p) by lia. exact Hpost.
@@ -350,7 +360,7 @@ Proof.
       { apply ztake_zlen. rewrite zlen_zdrop_data by lia. unfold k1. lia. }
       rewrite Hst. set (s1 := set_cur s b').
       destruct (Z.eq_dec k1 n) as [Hfull|Hpart].
-      * destruct (copy_done F n s1 fuel (ztake k1 (zdrop p (m_data m))) pre m post S On' ltac:(lia)) as (s' & Hc & Hpost).
+      * destruct (copy_done F n s1 fuel (ztake k1 (zdrop p (m_data m))) pre m post S On' ltac:(lia)) as (s' & Hc & Hpost & Hcur).
         exists s'. assert (Hk : k = n) by (unfold k, k1 in *; lia).
         rewrite Hk. replace (n <? n) with false by (symmetry; apply Z.ltb_ge; lia).
         unfold rest. rewrite ztake_app_le by (rewrite zlen_zdrop_data by lia; unfold k1 in *; lia).
@@ -383,15 +393,16 @@ Lemma copy_blocked (F : file) (n : Z) (pre : file) (m : member) (post : file) (s
   let p := b_pos (v_cur s) in
   let k := Z.min n (m_len m - p) in
   exists s', v_copy F fuel s n [] = Ok (s', ztake k (zdrop p (m_data m)), if k <? n then eEOF else eNil) /\
-             copy_post F s s' (total pre + p + k) false.
+             copy_post F s s' (total pre + p + k) false /\ on_member (v_cur s') m /\ b_pos (v_cur s') = p + k.
 Proof.
   intros S On Hbl Hlt Hf Hn p k.
   pose proof On as (_ & _ & _ & _ & Hp & _). fold p in Hp, Hlt.
   destruct (Z.eq_dec n 0) as [Hn0|Hn0].
-  - destruct (copy_done F n s fuel [] pre m post S On ltac:(rewrite zlen_nil; lia)) as (s' & Hc & Hpost).
+  - destruct (copy_done F n s fuel [] pre m post S On ltac:(rewrite zlen_nil; lia)) as (s' & Hc & Hpost & Hcur).
     exists s'. assert (Hk : k = 0) by (unfold k; lia). rewrite Hk, ztake_0.
     replace (0 <? n) with false by (symmetry; apply Z.ltb_ge; lia).
-    split; [exact Hc|]. fold p in Hpost. replace (total pre + p + 0) with (total pre + p) by lia. exact Hpost.
+    split; [exact Hc|]. fold p in Hpost. replace (total pre + p + 0) with (total pre + p) by lia.
+    split; [exact Hpost|]. rewrite Hcur. split; [exact On|]. fold p. lia.
   - destruct fuel as [|fuel]; [lia|].
     destruct (copy_step F n s fuel [] m On ltac:(fold p; lia) ltac:(rewrite zlen_nil; lia)) as (b' & Hst & On' & Hp').
     rewrite zlen_nil, Z.sub_0_r in Hst, Hp'. fold p in Hst, Hp'. simpl app in Hst. fold k in Hst, Hp'.
@@ -399,9 +410,10 @@ Proof.
     { apply ztake_zlen. rewrite zlen_zdrop_data by lia. unfold k. lia. }
     rewrite Hst. set (s1 := set_cur s b').
     destruct (Z.eq_dec k n) as [Hfull|Hpart].
-    + destruct (copy_done F n s1 fuel (ztake k (zdrop p (m_data m))) pre m post S On' ltac:(lia)) as (s' & Hc & Hpost).
+    + destruct (copy_done F n s1 fuel (ztake k (zdrop p (m_data m))) pre m post S On' ltac:(lia)) as (s' & Hc & Hpost & Hcur).
       exists s'. replace (k <? n) with false by (symmetry; apply Z.ltb_ge; lia).
-      split; [exact Hc|]. unfold copy_post in *. simpl in Hpost. simpl. rewrite Hp' in Hpost. rewrite Z.add_assoc in Hpost. exact Hpost.
+      split; [exact Hc|]. split; [unfold copy_post in *; simpl in Hpost; simpl; rewrite Hp' in Hpost; rewrite Z.add_assoc in Hpost; exact Hpost|].
+      rewrite Hcur. simpl. split; [exact On'|exact Hp'].
     + assert (Hk1 : k = m_len m - p) by (unfold k in *; lia).
       destruct fuel as [|fuel]; [lia|].
       replace (k <? n) with true by (symmetry; apply Z.ltb_lt; unfold k in *; lia).
@@ -412,9 +424,10 @@ Proof.
       change (eEOF =? eEOF) with true. cbv iota. rewrite app_nil_r, Hz1.
       destruct (Z.eqb_spec k n); [lia|].
       change (v_blocked (set_cur s b')) with (v_blocked s). rewrite Hbl.
-      eexists. split; [reflexivity|].
-      unfold copy_post; simpl. split; [reflexivity|]. split; [reflexivity|]. split; [reflexivity|]. split; [reflexivity|].
-      exists pre, m, post. split; [exact S|]. split; [exact On'|]. simpl. lia.
+      eexists. split; [reflexivity|]. split.
+      { unfold copy_post; simpl. split; [reflexivity|]. split; [reflexivity|]. split; [reflexivity|]. split; [reflexivity|].
+        exists pre, m, post. split; [exact S|]. split; [exact On'|]. simpl. lia. }
+      simpl. split; [exact On'|exact Hp'].
 Qed.
 
 (** ---- translation of the offsets the reader reports *)
@@ -497,7 +510,7 @@ Proof.
   destruct (skip_spec F post pre m s (Datatypes.S (length F)) S On He ltac:(pose proof (split_length S); lia))
     as (s1 & e1 & Hsk & [Hlc1 Hbl1] & Hcase).
   rewrite Hsk.
-  destruct Hcase as [(-> & He1 & pre' & m' & post' & S' & On' & Hlt' & Hq')|(-> & [He1 Hc1] & Hq')].
+  destruct Hcase as [(-> & He1 & pre' & m' & post' & S' & On' & Hlt' & Hq' & _)|(-> & [He1 Hc1] & Hq')].
   2:{ (* nothing left: end of data *)
       simpl. unfold flat_read. rewrite Hfe.
       replace (total F - f_pos f =? 0) with true by (symmetry; apply Z.eqb_eq; lia).
@@ -520,7 +533,7 @@ Proof.
   destruct (f_blocked f) eqn:Hfb.
   - (* Blocked *)
     destruct (copy_blocked F n pre' m' post' s1b (fuel_of F) S' Onb ltac:(simpl; congruence) Hlt' ltac:(unfold fuel_of; lia) Hn)
-      as (s' & Hcp & Hpost).
+      as (s' & Hcp & Hpost & _).
     change (b_pos (v_cur s1b)) with (b_pos (v_cur s1)) in Hcp, Hpost.
     rewrite Hcp.
     assert (Hbe : block_end F 0 (f_pos f) = total pre' + m_len m').
@@ -574,7 +587,7 @@ Proof.
   destruct (skip_spec F post pre m s (Datatypes.S (length F)) S On He ltac:(pose proof (split_length S); lia))
     as (s1 & e1 & Hsk & [Hlc1 Hbl1] & Hcase).
   rewrite Hsk.
-  destruct Hcase as [(-> & He1 & pre' & m' & post' & S' & On' & Hlt' & Hq')|(-> & [He1 Hc1] & Hq')].
+  destruct Hcase as [(-> & He1 & pre' & m' & post' & S' & On' & Hlt' & Hq' & _)|(-> & [He1 Hc1] & Hq')].
   2:{ simpl. unfold flat_byte. rewrite Hfe.
       replace (total F - f_pos f =? 0) with true by (symmetry; apply Z.eqb_eq; lia).
       eexists _, _, _, _. split; [reflexivity|]. split; [reflexivity|].
